@@ -50,6 +50,10 @@ def gen(tier, rnd):
     for _ in range(n):
         q = '.'.join(str(rnd.randrange(256)) for _ in range(4))
         lines.append('addr ' + hx(q + rnd.choice(['', ':%d' % rnd.randrange(65536)])))
+    # the (host, Port) constructor: the host must be a bare literal; a host that brings its own ':port' tail is malformed
+    for h in ['1.2.3.4', '[::1]', 'localhost', '*', '[2001:db8::1]', '1.2.3.4:80', '127.0.0.1:8080', '[::1]:8080', '127.0.0.1:', 'localhost:1', '1.2.3.4:x', '[::1]x', '']:
+        for prt in [0, 80, 9000, 65535]:
+            lines.append('addrhp %s %d' % (hx(h), prt))
     for alias in ['*', 'localhost']:
         for sfx in ['', ':0', ':80', ':65535', ':65536', ':']:
             lines.append('addr ' + hx(alias + sfx))
@@ -101,6 +105,9 @@ def oracle(line, out):
     if out.startswith('err ') and out != 'err invalid_argument':
         return ('errclass', 'rejected with %s, not std::invalid_argument' % out[4:])
     t = unhx(w[1])
+    if w[0] == 'addrhp':
+        # Address(host, Port(p)) must behave like the text host:p
+        t = t + b':' + w[2].encode(); w = ['addr', hx(t)]
     if w[0] == 'port':
         exp = port_spec(t) if t else None
         if exp is None and out.startswith('ok'):
